@@ -7,16 +7,21 @@
    position `length pre` of slots = pre ++ (ALit l, p) :: post.  `spec_dtype (pre ++ post) l p d` is the
    rule of the property text: d is the element type of a sibling tensor operand sharing the type
    constraint of p, or -- when there is none -- INT64 / FLOAT / BOOL by Python type.
+   `plainb l = true`: l is a scalar or a flat list whose elements have one Python type (C12_plain_of_homog);
+   for nested lists and lists mixing types the front ends do NOT agree (the _refuted theorems below).
+   `named` / `w`: variants of the code (fall-through path of the builder repaired / creation with Cast
+   semantics); the harness probes which variant the implementation is in on every run.
    Not covered by these theorems (see the evidence): values for STRING / complex / float8 / float4 /
-   4-bit targets (dtype only), float literals that are not exactly representable, empty lists. *)
+   4-bit targets (dtype only), float literals that are not exactly representable, NaN, empty lists
+   (no front end promotes one). *)
 From Coq Require Import ZArith NArith List Bool String.
 Require Import OV.Autocast.Autocast OV.Autocast.AutocastProofs.
-Require OV.Gen.Schemas.
+Require OV.Gen.Schemas OV.Gen.C12Decisions.
 Import ListNotations.
 
 (* -- element type: each front end follows the rule, for every schema shape that passes schema_okb -- *)
 Theorem C12_static_eq_spec : forall s args slots pre post l p outs,
-  schema_okb s = true ->
+  schema_okb s = true -> plainb l = true ->
   annotate s args = OK slots -> slots = (pre ++ (ALit l, p) :: post)%list ->
   promote_static s args = OK outs ->
   exists o, nth_error outs (List.length pre) = Some o /\ out_literal o = Some l /\
@@ -33,10 +38,10 @@ Theorem C12_eager_eq_spec : forall s args slots pre post l p outs,
 Proof. exact eager_eq_spec. Qed.
 Print Assumptions C12_eager_eq_spec.
 
-Theorem C12_builder_eq_spec : forall s args slots pre post l p outs,
-  schema_okb s = true ->
+Theorem C12_builder_eq_spec : forall named s args slots pre post l p outs,
+  schema_okb s = true -> plainb l = true ->
   annotate s args = OK slots -> slots = (pre ++ (ALit l, p) :: post)%list ->
-  promote_builder s args = OK outs ->
+  promote_builder_v named s args = OK outs ->
   exists o, nth_error outs (List.length pre) = Some o /\ out_literal o = Some l /\
             exists d, out_dtype o = Some d /\ spec_dtype (pre ++ post)%list l p d.
 Proof. exact builder_eq_spec. Qed.
@@ -44,10 +49,10 @@ Print Assumptions C12_builder_eq_spec.
 
 (* -- in a well-typed call (one element type per type constraint) the rule names exactly one type and
       the three front ends give the literal that same type -- *)
-Theorem C12_frontends_agree : forall s args slots pre post l p o1 o2 o3,
-  schema_okb s = true -> annotate s args = OK slots -> uniform slots ->
+Theorem C12_frontends_agree : forall named s args slots pre post l p o1 o2 o3,
+  schema_okb s = true -> plainb l = true -> annotate s args = OK slots -> uniform slots ->
   slots = (pre ++ (ALit l, p) :: post)%list ->
-  promote_static s args = OK o1 -> promote_eager s args = OK o2 -> promote_builder s args = OK o3 ->
+  promote_static s args = OK o1 -> promote_eager s args = OK o2 -> promote_builder_v named s args = OK o3 ->
   exists a b c, nth_error o1 (List.length pre) = Some a /\ nth_error o2 (List.length pre) = Some b /\
                 nth_error o3 (List.length pre) = Some c /\
                 out_dtype a = Some (spec_fn slots l p) /\ out_dtype b = Some (spec_fn slots l p) /\
@@ -64,8 +69,8 @@ Proof. exact binding_order_irrelevant. Qed.
 Print Assumptions C12_binding_order_irrelevant.
 
 (* -- operands that are not literals are handed to the op unchanged -- *)
-Theorem C12_tensors_pass_through : forall s args outs i o,
-  (promote_static s args = OK outs \/ promote_eager s args = OK outs \/ promote_builder s args = OK outs) ->
+Theorem C12_tensors_pass_through : forall named s args outs i o,
+  (promote_static s args = OK outs \/ promote_eager s args = OK outs \/ promote_builder_v named s args = OK outs) ->
   nth_error outs i = Some o ->
   exists a, nth_error args i = Some a /\
     match a with ALit l => out_literal o = Some l | _ => o = OKeep a end.
@@ -95,9 +100,9 @@ Print Assumptions C12_cast_paths_negative_unsigned_refuted.
 
 (* -- constant cache with the sign-aware key: whatever the history of requests, the tensor handed
       out for (l, d) is the tensor (l, d) denotes on its own -- *)
-Theorem C12_cache_never_conflates : forall h l d c' t,
-  get_or_create key_eq_signed (run_cache key_eq_signed [] h) l d = OK (c', t) ->
-  create l (resolve l d) = OK t.
+Theorem C12_cache_never_conflates : forall w named h l d c' t,
+  get_or_create_v w named key_eq_signed (run_cache_v w named key_eq_signed [] h) l d = OK (c', t) ->
+  denote_v w l d = OK t.
 Proof. exact cache_never_conflates. Qed.
 Print Assumptions C12_cache_never_conflates.
 
@@ -108,3 +113,95 @@ Theorem C12_cache_eq_key_conflates_refuted :
                      /\ create l (resolve l d) <> OK t.
 Proof. exact cache_eq_key_conflates. Qed.
 Print Assumptions C12_cache_eq_key_conflates_refuted.
+
+(* -- which literals the three theorems above cover: every scalar, every flat list of one Python type -- *)
+Theorem C12_plain_of_homog : forall l, is_nested l = false -> lit_homog l -> plainb l = true.
+Proof. exact plain_of_homog. Qed.
+Print Assumptions C12_plain_of_homog.
+
+(* -- ... and outside them (known findings): a nested float list / a list mixing int and float without a
+      sibling is DOUBLE in the translated graph (ir.tensor leaves the type to numpy) and FLOAT / INT64
+      (first element) in eager mode -- *)
+Theorem C12_static_nested_float_refuted :
+  schema_okb ex_abs = true /\
+  promote_static ex_abs [ALit nested_half] = OK [OConst nested_half DOUBLE] /\
+  promote_eager ex_abs [ALit nested_half] = OK [OConst nested_half FLOAT].
+Proof. exact static_nested_float_refuted. Qed.
+Print Assumptions C12_static_nested_float_refuted.
+
+Theorem C12_static_mixed_list_refuted :
+  promote_static ex_abs [ALit mixed_1_2h] = OK [OConst mixed_1_2h DOUBLE] /\
+  promote_eager ex_abs [ALit mixed_1_2h] = OK [OConst mixed_1_2h INT64] /\
+  out_value (OConst mixed_1_2h DOUBLE) = OK [VF false 1 0; VF false 5 1] /\
+  out_value (OConst mixed_1_2h INT64) = OK [VI 1%Z; VI 2%Z].
+Proof. exact static_mixed_list_refuted. Qed.
+Print Assumptions C12_static_mixed_list_refuted.
+
+(* -- the graph builder as read refuses exactly the literals outside its cached path (ValueError:
+      Initializer must have a name) while the other front ends promote them; repaired: refuses none -- *)
+Theorem C12_builder_refuses_iff : forall a y l, a = ALit l ->
+  (cast_builder_v false a y = ORefuse l <-> builder_list_ok l = false).
+Proof. exact builder_refuses_iff. Qed.
+Print Assumptions C12_builder_refuses_iff.
+
+Theorem C12_builder_refuses_mixed_refuted :
+  promote_builder_v false ex_abs [ALit mixed_1_2h] = OK [ORefuse mixed_1_2h] /\
+  promote_eager ex_abs [ALit mixed_1_2h] = OK [OConst mixed_1_2h INT64].
+Proof. exact builder_refuses_mixed_refuted. Qed.
+Print Assumptions C12_builder_refuses_mixed_refuted.
+
+Theorem C12_builder_never_refuses_fixed : forall a y l, cast_builder_v true a y <> ORefuse l.
+Proof. exact builder_never_refuses_fixed. Qed.
+Print Assumptions C12_builder_never_refuses_fixed.
+
+(* -- repaired creation (Cast semantics, proposed_fixes/ready/C12_01): direct creation = Constant + CastLike
+      on EVERY target dtype, with no hypothesis that the direct creation succeeds -- *)
+Theorem C12_cast_paths_agree_fixed : forall l d v0s,
+  lit_homog l -> np_cast l (default_dtype l) = OK v0s ->
+  np_cast_v true l d = cast_like l (default_dtype l) d.
+Proof. exact cast_paths_agree_fixed. Qed.
+Print Assumptions C12_cast_paths_agree_fixed.
+
+(* -- the front ends as CODE: the decision records read from the python ast of autocast.cast_inputs /
+      static_cast_inputs / dynamic_cast_inputs / BuilderBase._cast_inputs / _input_to_ir_value
+      (coq/Gen/C12Decisions.v, regenerated on every run) make the generic algorithm promote_of the three
+      algorithms of the theorems above -- *)
+Theorem C12_code_tables_are_model_instances :
+  (forall named s args, promote_of named OV.Gen.C12Decisions.static s args = promote_static s args) /\
+  (forall named s args, promote_of named OV.Gen.C12Decisions.eager s args = promote_eager s args) /\
+  (forall named s args, promote_of named OV.Gen.C12Decisions.builder s args = promote_builder_v named s args).
+Proof. exact code_tables_are_model_instances. Qed.
+Print Assumptions C12_code_tables_are_model_instances.
+
+(* -- a flag that no longer holds changes the algorithm: without the is_homogeneous guard a float literal
+      in Loop's state list takes the type of an unrelated INT64 state variable -- *)
+Theorem C12_hetero_guard_matters :
+  promote_of false dec_eager ex_loop [ANone; ANone; ATensor INT64 true; ALit (LScalar (SFloat false 5 1))]
+    = OK [OKeep ANone; OKeep ANone; OKeep (ATensor INT64 true); OConst (LScalar (SFloat false 5 1)) FLOAT] /\
+  promote_of false dec_no_hetero_guard ex_loop [ANone; ANone; ATensor INT64 true; ALit (LScalar (SFloat false 5 1))]
+    = OK [OKeep ANone; OKeep ANone; OKeep (ATensor INT64 true); OConst (LScalar (SFloat false 5 1)) INT64].
+Proof. exact hetero_guard_matters. Qed.
+Print Assumptions C12_hetero_guard_matters.
+
+(* -- the other caches on the path and keys that would not do -- *)
+Theorem C12_int_key_injective : forall a b, py_eq (SInt a) (SInt b) = true ->
+  np_cast (LList (SInt a) []) INT64 = np_cast (LList (SInt b) []) INT64.
+Proof. exact int_key_injective. Qed.
+Print Assumptions C12_int_key_injective.
+
+Theorem C12_value_only_key_refuted :
+  exists l1 l2, list_eqb py_eq (scalars_of l1) (scalars_of l2) = true /\ is_list l1 = is_list l2 /\
+                denote_v false l1 None <> denote_v false l2 None.
+Proof. exact value_only_key_refuted. Qed.
+Print Assumptions C12_value_only_key_refuted.
+
+Theorem C12_eq_value_dtype_key_refuted :
+  exists a b d, py_eq a b = true /\ np_cast_scalar a d <> np_cast_scalar b d.
+Proof. exact eq_value_dtype_key_refuted. Qed.
+Print Assumptions C12_eq_value_dtype_key_refuted.
+
+Theorem C12_eq_key_true_one_harmless : forall d,
+  np_cast_scalar (SBool true) d = np_cast_scalar (SInt 1) d /\
+  np_cast_scalar (SFloat false 1 0) d = np_cast_scalar (SInt 1) d.
+Proof. exact eq_key_true_one_harmless. Qed.
+Print Assumptions C12_eq_key_true_one_harmless.
